@@ -271,8 +271,7 @@ def handle (d : DState) (line : String) : Except String (DState × String) := do
         let order ← pNat (← arg a "order")
         let c : MirjaliliCfg Rat := { maxDemand := ← pNat (← arg a "D"), m := ← pNat (← arg a "m"), Q := ← pNat (← arg a "Q"), cv := 0, cf := 0, cs := 0, cw := 0, ch := 0 }
         let dp := (censored nbt.toList).toArray
-        let probs := (mirjaliliEvents c).map fun ev =>
-          mirjaliliProb (fun d => dp.getD d 0) (fun _ => cat) order (ev.headD 0).toNat ((ev.drop 1).map Int.toNat)
+        let probs := mirjaliliRow c (fun d => dp.getD d 0) (fun _ => cat) order
         pure (d, s!"probs={fList fRat probs} sum={fRat (lsum probs)}")
     | "ls" => do
         pure (d, fStore (getDir d (← arg a "dir")))
